@@ -32,7 +32,7 @@ def make_universe(seed, tags=(1, 2, 3, 11, 12, 13)):
     for n, t in enumerate(tags):
         while True:
             rows = 1 if n == 1 else rng.randint(1, 4)
-            cols = rng.randint(2, 4)
+            cols = 3 if n in (0, 1, 3, 4) else rng.randint(2, 4)
             dens = rng.choice([0.3, 0.6, 0.9])
             m = [[(rng.choice([-1, 1]) * rng.randint(1, 40)) if rng.random() < dens else 0 for _ in range(cols)] for _ in range(rows)]
             if n == 0 and rows > 1:
@@ -54,6 +54,12 @@ def make_universe(seed, tags=(1, 2, 3, 11, 12, 13)):
         mats[t] = m
         chars[t] = rng.sample(alphabet, cols - 1) + ["~%d" % t]      # distinct tables (the blank carries the tag)
         coords[t] = [t, t + rng.randint(1, 9)]
+    # "any charset": the tables of the first two lines of a layout (and of the first two "older" values) hold multi-character
+    # symbols and differ only in where the symbol boundaries are - their concatenations are equal ("abc~q"), the tables are not
+    for a, b, blank in ((0, 1, "~q"), (3, 4, "~r")):
+        if len(tags) > b:
+            chars[tags[a]] = ["a", "bc", blank]
+            chars[tags[b]] = ["ab", "c", blank]
     dtypes = {t: (np.float32 if i % 2 else np.float64) for i, t in enumerate(tags)}
     return {"mats": mats, "chars": chars, "coords": coords, "dtypes": {t: np.dtype(d).name for t, d in dtypes.items()}}
 
